@@ -1,4 +1,721 @@
-//! topicsync: not built yet.
-pub fn run(args: &vh_common::Args) {
-    vh_common::unknown(args)
+//! TopicSync (C22, C23): real `TopicLogSync` sessions, the real `TopicSyncManager` and its
+//! `ManagerEventStream` against spec/TopicSync.
+//!
+//! Sessions are real `run()` futures over harness-owned connection ends (`wire.rs`), a real
+//! `SqliteStore` (behind `ProbeStore`) and the real broadcast / live-mode channels. The harness is
+//! the scheduler: `Run(s)` = poll session s until it is blocked on its inputs, `Poll` = one
+//! `poll_next` of the manager event stream by the consumer.
+//!
+//! replay: TLC-exported behaviours of the two machines of the spec ("lifecycle": one session with
+//!         a scripted, possibly misbehaving remote and a failing sink; "live": several live
+//!         sessions below one manager). After every step the observables (session: returned
+//!         Ok/Err/still running, written messages, emitted events; consumer: items of the manager
+//!         stream) must equal the spec's; where the spec is nondeterministic (unbiased select! in
+//!         LogSync, SelectAll order) an observable from the step's `allowed` set makes the
+//!         behaviour inapplicable to this execution (retried, then skipped - never a violation).
+//! record: seeded random scenarios and schedules of both machines on the real code, one event per
+//!         action, validated by TLC against Trace_TopicSync.tla.
+use std::collections::BTreeMap;
+use std::pin::Pin;
+use std::task::Poll;
+
+use futures_channel::mpsc;
+use futures_util::Stream;
+use p2panda_core::{Body, Topic};
+use p2panda_sync::manager::TopicSyncManager;
+use p2panda_sync::protocols::TopicLogSync;
+use p2panda_sync::test_utils::Peer;
+use p2panda_sync::traits::Manager as _;
+use p2panda_sync::{FromSync, SessionConfig};
+use tokio::runtime::Runtime;
+use tokio::sync::broadcast;
+use vh_common::{Args, Outcome, Rng, TraceWriter, Value, catch, json, read_ndjson, unknown};
+
+use crate::probe::{Ext, LogId, ProbeStore};
+use crate::session::{Ops, SessionDrv, SyncEvt, key_of, lifecycle_state, topic_of};
+use crate::wire::count_waker;
+
+type Manager = TopicSyncManager<Topic, ProbeStore, LogId, Ext>;
+type ManagerStream = Pin<Box<dyn Stream<Item = FromSync<SyncEvt>> + Send>>;
+
+pub fn run(args: &Args) {
+    let rt = tokio::runtime::Builder::new_multi_thread().worker_threads(1).enable_all().build().expect("runtime");
+    let _guard = rt.enter();
+    match args.mode.as_str() {
+        "replay" => replay(args, &rt),
+        "record" => record(args, &rt),
+        _ => unknown(args),
+    }
+}
+
+// ------------------------------------------------------------------------------------------
+// observables
+
+/// Session observable, with the known defect "SessionStarted is never emitted" normalised away:
+/// once the session has been scheduled, a missing leading SessionStarted is inserted (and
+/// reported separately under its own signature) so that the rest of the lifecycle is compared
+/// strictly.
+fn session_obs(drv: &SessionDrv, ops: &Ops, scheduled: bool, lifecycle: bool) -> (Value, bool) {
+    let mut obs = drv.obs(ops);
+    let mut missing = false;
+    if lifecycle && scheduled {
+        let ev = obs["ev"].as_array().cloned().unwrap_or_default();
+        if ev.first().map(|e| e["e"] != "SessionStarted").unwrap_or(true) {
+            missing = true;
+            let mut patched = vec![json!({"e": "SessionStarted", "x": "-"})];
+            patched.extend(ev);
+            obs["ev"] = Value::Array(patched);
+        }
+    }
+    (obs, missing)
+}
+
+fn same_session(got: &Value, want: &Value) -> bool {
+    got["res"] == want["res"] && got["sent"] == want["sent"] && got["ev"] == want["ev"]
+}
+
+enum Verdict {
+    Match,
+    /// differs from the exported behaviour but is another outcome the spec allows for this step
+    AllowedOther,
+    Mismatch(String, String),
+}
+
+/// Names the failure class of a session whose observable the spec does not allow.
+fn classify_session(drv: &mut SessionDrv, got: &Value, want: &Value, lifecycle: bool) -> (String, String) {
+    let ev = got["ev"].as_array().cloned().unwrap_or_default();
+    let lc = if lifecycle { lifecycle_state(&ev, true) } else { "S4" };
+    let (gr, wr) = (got["res"].as_str().unwrap_or("?"), want["res"].as_str().unwrap_or("?"));
+    let detail = format!("real session: res={gr} events={} sent={}; spec: res={wr} events={} sent={}", got["ev"], got["sent"], want["ev"], want["sent"]);
+    if let Some(p) = &drv.panicked {
+        return ("session-panics".into(), format!("{p}; {detail}"));
+    }
+    if gr == "spin" {
+        return ("spins-after-stream-closure-in-sync".into(), detail);
+    }
+    if lc == "dead" {
+        return ("lifecycle-order-violated".into(), detail);
+    }
+    if lifecycle && (gr == "ok" || gr == "err") && lc != "T" {
+        let sig = if drv.out.broken() { "no-terminal-event-when-close-fails" } else { "no-terminal-event" };
+        return (sig.into(), detail);
+    }
+    if gr == "run" && wr != "run" {
+        // nothing in flight towards the session, not woken, no store call: it will never return
+        let polls = drv.run_until_blocked();
+        if !drv.over() {
+            return ("session-hangs".into(), format!("still pending after {polls} more polls; {detail}"));
+        }
+    }
+    if gr != wr {
+        return ("result-differs-from-spec".into(), detail);
+    }
+    if got["ev"] != want["ev"] {
+        return ("events-differ-from-spec".into(), detail);
+    }
+    ("messages-differ-from-spec".into(), detail)
+}
+
+fn judge_session(drv: &mut SessionDrv, got: &Value, want: &Value, allowed: &Value, lifecycle: bool) -> Verdict {
+    if same_session(got, want) {
+        return Verdict::Match;
+    }
+    if allowed.as_array().map(|a| a.iter().any(|alt| same_session(got, alt))).unwrap_or(false) {
+        return Verdict::AllowedOther;
+    }
+    let (sig, detail) = classify_session(drv, got, want, lifecycle);
+    Verdict::Mismatch(sig, detail)
+}
+
+// ------------------------------------------------------------------------------------------
+// machine 1: lifecycle
+
+struct LcWorld {
+    ops: Ops,
+    drv: SessionDrv,
+    scheduled: bool,
+    _peer: Peer,
+}
+
+fn lc_setup(rt: &Runtime, cap: usize, live: bool, n: usize, fail_at: u64) -> LcWorld {
+    let mut ops = Ops::new();
+    let topic = topic_of("t1");
+    let mut peer = rt.block_on(Peer::new(0));
+    for k in 1..=n {
+        let body = Body::new(format!("local operation {k}").as_bytes());
+        let (header, bytes) = rt.block_on(peer.create_operation(&body, 0));
+        ops.register(&format!("l{k}"), header, bytes, body);
+    }
+    let logs = BTreeMap::from([(peer.id(), vec![0usize])]);
+    rt.block_on(peer.associate(&topic, &logs));
+    let store = ProbeStore::new(peer.store.clone());
+    let (event_tx, events_rx) = broadcast::channel(512);
+    let (live_tx, live_rx) = mpsc::channel(512);
+    let session = TopicLogSync::new_with_capacity(topic, store.clone(), if live { Some(live_rx) } else { None }, event_tx, cap);
+    let drv = SessionDrv::new(session, events_rx, if live { Some(live_tx) } else { None }, store, fail_at);
+    LcWorld { ops, drv, scheduled: false, _peer: peer }
+}
+
+impl LcWorld {
+    fn step(&mut self, act: &str, m: &Value) {
+        match act {
+            "Give" => {
+                let item = self.ops.item(m);
+                self.drv.inb.give(item);
+            }
+            "End" => self.drv.inb.end(),
+            "LiveGive" => {
+                let it = self.ops.to_sync(m);
+                self.drv.give_live(it);
+            }
+            "Run" => {
+                self.drv.run_until_blocked();
+                self.scheduled = true;
+            }
+            other => {
+                eprintln!("unknown lifecycle action {other}");
+                std::process::exit(2);
+            }
+        }
+    }
+}
+
+enum RunResult {
+    Ok { missing_start: bool },
+    Inapplicable,
+    Violation(String, String),
+}
+
+fn replay_lifecycle(rt: &Runtime, b: &Value) -> RunResult {
+    let init = &b["init"]["s1"];
+    let mut w = lc_setup(
+        rt,
+        b["cap"].as_u64().expect("cap") as usize,
+        init["live"].as_bool().expect("live"),
+        init["n"].as_u64().expect("n") as usize,
+        init["failAt"].as_u64().expect("failAt"),
+    );
+    let mut missing_start = false;
+    for (k, s) in b["steps"].as_array().expect("steps").iter().enumerate() {
+        let act = s["act"].as_str().expect("act");
+        w.step(act, &s["m"]);
+        if w.drv.stalled {
+            eprintln!("store did not answer within 60 s");
+            std::process::exit(2);
+        }
+        let (got, missing) = session_obs(&w.drv, &w.ops, w.scheduled, true);
+        missing_start |= missing;
+        match judge_session(&mut w.drv, &got, &s["obs"]["ss"]["s1"], &s["allowed"], true) {
+            Verdict::Match => {}
+            Verdict::AllowedOther => return RunResult::Inapplicable,
+            Verdict::Mismatch(sig, detail) => return RunResult::Violation(sig, format!("after step {k} ({act}): {detail}")),
+        }
+    }
+    RunResult::Ok { missing_start }
+}
+
+// ------------------------------------------------------------------------------------------
+// machine 2: live sessions below one manager
+
+struct LiveWorld {
+    ops: Ops,
+    ids: Vec<String>,
+    drv: BTreeMap<String, SessionDrv>,
+    _manager: Manager,
+    stream: ManagerStream,
+    consumer: Vec<Value>,
+    stream_closed: bool,
+    _peer: Peer,
+}
+
+fn live_setup(rt: &Runtime, cap: usize, topics: &BTreeMap<String, String>, subscribe_first: bool) -> Result<LiveWorld, String> {
+    let ops = Ops::new();
+    let peer = rt.block_on(Peer::new(0));
+    let store = ProbeStore::new(peer.store.clone());
+    let mut manager = Manager::new(store.clone());
+    let mut stream: Option<ManagerStream> = None;
+    if subscribe_first {
+        stream = Some(Box::pin(manager.subscribe()));
+    }
+    let mut drv = BTreeMap::new();
+    let ids: Vec<String> = topics.keys().cloned().collect();
+    for (k, id) in ids.iter().enumerate() {
+        let config = SessionConfig { topic: topic_of(&topics[id]), remote: key_of(id).verifying_key(), live_mode: true };
+        let mut session = rt.block_on(manager.session(k as u64 + 1, &config));
+        session.buffer_capacity = cap;
+        let events_rx = session.event_tx.subscribe();
+        drv.insert(id.clone(), SessionDrv::new(session, events_rx, None, store.clone(), 0));
+    }
+    let stream = match stream {
+        Some(s) => s,
+        None => Box::pin(manager.subscribe()),
+    };
+    let mut w = LiveWorld { ops, ids, drv, _manager: manager, stream, consumer: vec![], stream_closed: false, _peer: peer };
+    // honest, empty initial sync brings every session into live mode
+    for id in w.ids.clone() {
+        let d = w.drv.get_mut(&id).unwrap();
+        d.inb.give(w.ops.item(&json!({"k": "Have", "x": "-"})));
+        d.inb.give(w.ops.item(&json!({"k": "Done", "x": "-"})));
+        d.run_until_blocked();
+        let evs: Vec<String> = d.events.iter().map(|e| w.ops.evt_json(e)["e"].as_str().unwrap().to_string()).collect();
+        let want_tail = ["SyncStarted", "SyncFinished", "LiveModeStarted"];
+        if d.over() || evs.len() < 3 || evs[evs.len() - 3..] != want_tail {
+            return Err(format!("session {id} did not reach live mode in the set-up: res={} events={evs:?}", d.res()));
+        }
+        d.mark_setup_done();
+    }
+    // the consumer drains the set-up events
+    for _ in 0..64 {
+        if !w.poll_consumer() {
+            break;
+        }
+    }
+    w.consumer.clear();
+    Ok(w)
+}
+
+impl LiveWorld {
+    /// One `poll_next` of the manager event stream. Returns whether an item was produced.
+    fn poll_consumer(&mut self) -> bool {
+        if self.stream_closed {
+            return false;
+        }
+        let (_cw, waker) = count_waker();
+        let mut cx = std::task::Context::from_waker(&waker);
+        match self.stream.as_mut().poll_next(&mut cx) {
+            Poll::Ready(Some(item)) => {
+                let sid = self.ids.get(item.session_id as usize - 1).cloned().unwrap_or_else(|| format!("?{}", item.session_id));
+                let e = self.ops.evt_json(&item.event);
+                self.consumer.push(json!({"s": sid, "e": e["e"], "x": e["x"]}));
+                true
+            }
+            Poll::Ready(None) => {
+                self.stream_closed = true;
+                false
+            }
+            Poll::Pending => false,
+        }
+    }
+
+    fn step(&mut self, act: &str, s: &str, m: &Value) {
+        match act {
+            "Give" => {
+                let item = self.ops.item(m);
+                self.drv.get_mut(s).expect("session").inb.give(item);
+            }
+            "End" => self.drv.get_mut(s).expect("session").inb.end(),
+            "Run" => {
+                self.drv.get_mut(s).expect("session").run_until_blocked();
+            }
+            "Poll" => {
+                self.poll_consumer();
+            }
+            other => {
+                eprintln!("unknown live action {other}");
+                std::process::exit(2);
+            }
+        }
+    }
+
+    fn obs(&self) -> Value {
+        let mut ss = serde_json::Map::new();
+        for (id, d) in &self.drv {
+            ss.insert(id.clone(), session_obs(d, &self.ops, true, false).0);
+        }
+        json!({"ss": Value::Object(ss), "mgr": {"out": self.consumer}})
+    }
+}
+
+fn replay_live(rt: &Runtime, b: &Value, variant: u64) -> RunResult {
+    let topics: BTreeMap<String, String> =
+        b["topics"].as_object().expect("topics").iter().map(|(k, v)| (k.clone(), v.as_str().unwrap().to_string())).collect();
+    let mut w = match live_setup(rt, b["cap"].as_u64().expect("cap") as usize, &topics, variant % 2 == 0) {
+        Ok(w) => w,
+        Err(e) => return RunResult::Violation("live-setup-failed".into(), e),
+    };
+    for (k, s) in b["steps"].as_array().expect("steps").iter().enumerate() {
+        let act = s["act"].as_str().expect("act");
+        let sid = s["s"].as_str().unwrap_or("-");
+        w.step(act, sid, &s["m"]);
+        let got = w.obs();
+        let want = &s["obs"];
+        // sessions
+        for id in w.ids.clone() {
+            let allowed = if act == "Run" && id == sid { s["allowed"].clone() } else { json!([]) };
+            let d = w.drv.get_mut(&id).unwrap();
+            if d.stalled {
+                eprintln!("store did not answer within 60 s");
+                std::process::exit(2);
+            }
+            match judge_session(d, &got["ss"][&id], &want["ss"][&id], &allowed, false) {
+                Verdict::Match => {}
+                Verdict::AllowedOther => return RunResult::Inapplicable,
+                Verdict::Mismatch(sig, detail) => {
+                    return RunResult::Violation(format!("live-{sig}"), format!("after step {k} ({act} {sid}), session {id}: {detail}"));
+                }
+            }
+        }
+        // consumer
+        if got["mgr"]["out"] != want["mgr"]["out"] {
+            let alt = act == "Poll" && s["allowed"].as_array().map(|a| a.iter().any(|o| o["out"] == got["mgr"]["out"])).unwrap_or(false);
+            if alt {
+                return RunResult::Inapplicable;
+            }
+            let out = got["mgr"]["out"].as_array().cloned().unwrap_or_default();
+            let mut seen = std::collections::BTreeSet::new();
+            let dup = out.iter().filter(|i| i["e"] == "Op").any(|i| !seen.insert(i["x"].as_str().unwrap_or("").to_string()));
+            let want_out = want["mgr"]["out"].as_array().cloned().unwrap_or_default();
+            let missing_op = want_out.iter().filter(|i| i["e"] == "Op").any(|i| !out.contains(i));
+            let sig = if dup {
+                "consumer-sees-operation-twice"
+            } else if missing_op {
+                "operation-event-dropped-by-manager"
+            } else {
+                "consumer-stream-differs-from-spec"
+            };
+            return RunResult::Violation(sig.into(), format!("after step {k} ({act} {sid}): consumer saw {}, spec says {}", got["mgr"]["out"], want["mgr"]["out"]));
+        }
+    }
+    RunResult::Ok { missing_start: false }
+}
+
+// ------------------------------------------------------------------------------------------
+
+fn replay(args: &Args, rt: &Runtime) {
+    let behaviours = read_ndjson(args.input.as_ref().expect("--in"));
+    let mut out = Outcome::new(
+        args,
+        "every TLC-exported behaviour of the lifecycle machine (one real TopicLogSync session, scripted remote with wrong \
+         messages / early stream end / failing k-th sink operation, live-mode channel items) and of the live machine (real \
+         TopicSyncManager + ManagerEventStream + several live sessions) executed on the real code with the harness as \
+         scheduler; observables compared after every step; non-trivial = the behaviour contains a fault (lifecycle) or an \
+         operation that reaches the manager from a session (live); distinct by behaviour",
+    );
+    let retries = args.extra_usize("retries", 6);
+    let property = args.extra.get("property").cloned().unwrap_or_else(|| "C22".into());
+    for (idx, b) in behaviours.iter().enumerate() {
+        out.eval();
+        let kind = b["kind"].as_str().unwrap_or("?").to_string();
+        let mut result = RunResult::Inapplicable;
+        for attempt in 0..=retries {
+            let r = catch(|| match kind.as_str() {
+                "lifecycle" => replay_lifecycle(rt, b),
+                "live" => replay_live(rt, b, idx as u64 + attempt as u64),
+                other => {
+                    eprintln!("unknown behaviour kind {other}");
+                    std::process::exit(2);
+                }
+            });
+            result = match r {
+                Ok(r) => r,
+                Err(p) => RunResult::Violation("harness-or-code-panics".into(), p),
+            };
+            if !matches!(result, RunResult::Inapplicable) {
+                break;
+            }
+            out.count("retries_after_allowed_other_outcome");
+        }
+        let steps = b["steps"].as_array().expect("steps");
+        let nontrivial = if kind == "lifecycle" {
+            b["init"]["s1"]["failAt"] != 0
+                || steps.iter().any(|s| s["act"] == "End")
+                || steps.iter().any(|s| s["obs"]["ss"]["s1"]["ev"].as_array().map(|e| e.iter().any(|x| x["e"] == "Failed")).unwrap_or(false))
+        } else {
+            steps.last().map(|s| s["obs"]["mgr"]["out"].as_array().map(|o| o.iter().any(|i| i["e"] == "Op")).unwrap_or(false)).unwrap_or(false)
+        };
+        if nontrivial {
+            out.mark_distinct(format!("{idx}"));
+        }
+        match result {
+            RunResult::Ok { missing_start } => {
+                out.count(&format!("{kind}_matched"));
+                if missing_start {
+                    out.count("session_started_missing");
+                }
+                if missing_start && out.counters.get("session_started_missing") == Some(&1) {
+                    out.violation(
+                        "C22",
+                        "session-started-never-emitted",
+                        "the session's first event is not SessionStarted (the event is emitted nowhere); rest of the lifecycle as specified".into(),
+                        b.clone(),
+                    );
+                }
+                out.sample(b.clone());
+            }
+            RunResult::Inapplicable => out.count(&format!("{kind}_skipped_other_allowed_outcome")),
+            RunResult::Violation(sig, detail) => out.violation(&property, &sig, detail, b.clone()),
+        }
+    }
+    out.write(args);
+}
+
+fn record(args: &Args, rt: &Runtime) {
+    match args.extra.get("machine").map(|s| s.as_str()).unwrap_or("lifecycle") {
+        "lifecycle" => record_lifecycle(args, rt),
+        "live" => record_live(args, rt),
+        _ => unknown(args),
+    }
+}
+
+fn record_lifecycle(args: &Args, rt: &Runtime) {
+    let mut rng = Rng::new(args.seed);
+    let n_runs = if args.n > 0 { args.n } else { 100 };
+    let mut trace = TraceWriter::create(args.out.as_ref().expect("--out"));
+    let mut out = Outcome::new(
+        args,
+        "seeded random lifecycle scenarios on a real TopicLogSync session (0..2 local / 0..2 remote operations, live mode \
+         on/off, ring capacity 1..3, sink failing at a random operation in 1/3 of the runs, remote misbehaving at a random \
+         position in 1/2 of the runs) under a random schedule; one event per action; distinct by run",
+    );
+    let wrong = ["Have", "PreSync", "Done", "Op", "Live", "Close", "Bad"];
+    let live_ops = ["r1", "x", "y"];
+    for run in 0..n_runs {
+        out.eval();
+        let cap = rng.range(1, 3) as usize;
+        let live = rng.chance(2, 3);
+        let n = rng.below(3) as usize;
+        let r = rng.below(3) as usize;
+        let fail_at = if rng.chance(1, 3) { rng.range(1, 8) } else { 0 };
+        let misbehave = rng.chance(1, 2);
+        let mut w = lc_setup(rt, cap, live, n, fail_at);
+        trace.event(json!({"ev": "Reset", "machine": "lifecycle", "run": run, "cap": cap, "live": live, "n": n, "r": r, "failAt": fail_at}));
+        // remote script state (mirrors NewRemote / HonestNext of the spec)
+        let mut pos = "Have";
+        let mut k = 0usize;
+        let mut ended = false;
+        let mut live_in = 0;
+        let mut live_q = 0;
+        let mut dirty = true;
+        let mut missing_start = false;
+        let mut steps = 0;
+        while steps < 60 {
+            steps += 1;
+            if ended && (!dirty || w.drv.over()) {
+                break;
+            }
+            // choose an action
+            let mut choices: Vec<&str> = vec![];
+            if dirty && !w.drv.over() {
+                choices.extend(["Run", "Run", "Run"]);
+            }
+            if !ended {
+                if matches!(pos, "Have" | "Second" | "Ops") {
+                    choices.extend(["Honest", "Honest", "Honest"]);
+                }
+                if pos == "Live" && live_in < 3 {
+                    choices.extend(["RLive", "RLive"]);
+                }
+                if pos == "Live" {
+                    choices.push("RClose");
+                }
+                if misbehave && matches!(pos, "Have" | "Second" | "Ops" | "Live") && rng.chance(1, 4) {
+                    choices.push("Wrong");
+                }
+                if (misbehave && rng.chance(1, 6)) || matches!(pos, "Closed" | "Faulted") || (pos == "Live" && !live) {
+                    choices.push("End");
+                }
+                if pos == "Live" && live_in >= 3 {
+                    choices.push("End");
+                }
+            }
+            if live && !w.drv.over() && live_q < 3 {
+                choices.push("LiveGive");
+            }
+            if choices.is_empty() {
+                if !ended {
+                    choices.push("End");
+                } else {
+                    break;
+                }
+            }
+            let choice = *rng.pick(&choices);
+            let (act, m) = match choice {
+                "Run" => ("Run", json!({"k": "-", "x": "-"})),
+                "Honest" => {
+                    let m = match pos {
+                        "Have" => {
+                            pos = "Second";
+                            json!({"k": "Have", "x": "-"})
+                        }
+                        "Second" => {
+                            if r > 0 {
+                                pos = "Ops";
+                                json!({"k": "PreSync", "x": "-"})
+                            } else {
+                                pos = "Live";
+                                json!({"k": "Done", "x": "-"})
+                            }
+                        }
+                        _ => {
+                            if k < r {
+                                k += 1;
+                                json!({"k": "Op", "x": format!("r{k}")})
+                            } else {
+                                pos = "Live";
+                                json!({"k": "Done", "x": "-"})
+                            }
+                        }
+                    };
+                    ("Give", m)
+                }
+                "RLive" => {
+                    live_in += 1;
+                    ("Give", json!({"k": "Live", "x": *rng.pick(&live_ops)}))
+                }
+                "RClose" => {
+                    pos = "Closed";
+                    ("Give", json!({"k": "Close", "x": "-"}))
+                }
+                "Wrong" => {
+                    let kind = *rng.pick(&wrong);
+                    let x = match kind {
+                        "Op" => "r1",
+                        "Live" => "x",
+                        _ => "-",
+                    };
+                    pos = "Faulted";
+                    ("Give", json!({"k": kind, "x": x}))
+                }
+                "End" => {
+                    ended = true;
+                    ("End", json!({"k": "-", "x": "-"}))
+                }
+                _ => {
+                    live_q += 1;
+                    if rng.chance(1, 4) {
+                        ("LiveGive", json!({"k": "Close", "x": "-"}))
+                    } else {
+                        ("LiveGive", json!({"k": "Payload", "x": *rng.pick(&["x", "y", "r1", "l1"])}))
+                    }
+                }
+            };
+            w.step(act, &m);
+            dirty = act != "Run";
+            if w.drv.stalled {
+                eprintln!("store did not answer within 60 s");
+                std::process::exit(2);
+            }
+            let (obs, missing) = session_obs(&w.drv, &w.ops, w.scheduled, true);
+            missing_start |= missing;
+            trace.event(json!({"ev": act, "s": "s1", "m": m, "obs": obs}));
+            if let Some(p) = &w.drv.panicked {
+                out.violation("C22", "session-panics", p.clone(), json!({"run": run, "seed": args.seed}));
+                break;
+            }
+        }
+        // direct judgement of the real event sequence (the trace spec's invariants see the same)
+        let (obs, _) = session_obs(&w.drv, &w.ops, w.scheduled, true);
+        let ev = obs["ev"].as_array().cloned().unwrap_or_default();
+        let lc = lifecycle_state(&ev, true);
+        let case = json!({"run": run, "seed": args.seed, "cap": cap, "live": live, "n": n, "r": r, "failAt": fail_at, "final": obs});
+        if w.drv.spun {
+            out.violation("C22", "spins-after-stream-closure-in-sync", format!("run {run}: session spins, events {}", obs["ev"]), case.clone());
+        } else if lc == "dead" {
+            out.violation("C22", "lifecycle-order-violated", format!("run {run}: events {}", obs["ev"]), case.clone());
+        } else if w.drv.result.is_some() && lc != "T" {
+            let sig = if w.drv.out.broken() { "no-terminal-event-when-close-fails" } else { "no-terminal-event" };
+            out.violation("C22", sig, format!("run {run}: session returned {:?} with events {}", w.drv.result, obs["ev"]), case.clone());
+        } else if ended && !w.drv.over() {
+            w.drv.run_until_blocked();
+            if !w.drv.over() {
+                out.violation("C22", "session-hangs", format!("run {run}: stream ended, session still pending; events {}", obs["ev"]), case.clone());
+            }
+        }
+        if missing_start {
+            out.count("session_started_missing");
+            if out.counters.get("session_started_missing") == Some(&1) {
+                out.violation("C22", "session-started-never-emitted", "the session's first event is not SessionStarted (the event is emitted nowhere)".into(), case.clone());
+            }
+        }
+        out.mark_distinct(format!("{run}"));
+        out.count(&format!("end_{}", w.drv.res()));
+        if run < 2 {
+            out.sample(case);
+        }
+    }
+    let (events, runs) = trace.finish();
+    out.set_trace(events, runs);
+    out.write(args);
+}
+
+fn record_live(args: &Args, rt: &Runtime) {
+    let mut rng = Rng::new(args.seed);
+    let n_runs = if args.n > 0 { args.n } else { 100 };
+    let mut trace = TraceWriter::create(args.out.as_ref().expect("--out"));
+    let mut out = Outcome::new(
+        args,
+        "seeded random live-mode flows on the real TopicSyncManager + ManagerEventStream with 2..3 live sessions on 1..2 \
+         topics (ring capacity 1..3, 4 operations arriving repeatedly from several remotes, random interleaving of remote \
+         messages, session scheduling and consumer polls, occasional Close / stream end); one event per action; distinct by run",
+    );
+    let names = ["a", "b", "c", "d"];
+    for run in 0..n_runs {
+        out.eval();
+        let cap = rng.range(1, 3) as usize;
+        let k = rng.range(2, 3) as usize;
+        let two_topics = rng.chance(1, 3);
+        let mut topics = BTreeMap::new();
+        for i in 1..=k {
+            topics.insert(format!("s{i}"), if two_topics && rng.chance(1, 2) { "t2".to_string() } else { "t1".to_string() });
+        }
+        let mut w = match live_setup(rt, cap, &topics, rng.chance(1, 2)) {
+            Ok(w) => w,
+            Err(e) => {
+                out.violation("C23", "live-setup-failed", e, json!({"run": run, "seed": args.seed}));
+                continue;
+            }
+        };
+        trace.event(json!({"ev": "Reset", "machine": "live", "run": run, "cap": cap, "topics": topics}));
+        let mut ended: BTreeMap<String, bool> = w.ids.iter().map(|i| (i.clone(), false)).collect();
+        let steps = rng.range(10, 40);
+        for step in 0..steps + 12 {
+            let settle = step >= steps; // at the end: run everybody and poll until quiet
+            let sid = rng.pick(&w.ids).clone();
+            let (act, m) = if settle {
+                if step % 2 == 0 { ("Run", json!({"k": "-", "x": "-"})) } else { ("Poll", json!({"k": "-", "x": "-"})) }
+            } else {
+                match rng.below(10) {
+                    0..=3 if !ended[&sid] => ("Give", json!({"k": "Live", "x": *rng.pick(&names)})),
+                    4..=6 => ("Run", json!({"k": "-", "x": "-"})),
+                    7..=8 => ("Poll", json!({"k": "-", "x": "-"})),
+                    _ if !ended[&sid] && rng.chance(1, 3) => {
+                        ended.insert(sid.clone(), true);
+                        if rng.chance(1, 2) { ("Give", json!({"k": "Close", "x": "-"})) } else { ("End", json!({"k": "-", "x": "-"})) }
+                    }
+                    _ => ("Poll", json!({"k": "-", "x": "-"})),
+                }
+            };
+            if settle && act == "Run" {
+                // everybody once
+                for id in w.ids.clone() {
+                    w.step("Run", &id, &m);
+                    trace.event(json!({"ev": "Run", "s": id, "m": m, "obs": w.obs()}));
+                }
+                continue;
+            }
+            w.step(act, &sid, &m);
+            trace.event(json!({"ev": act, "s": if act == "Poll" { "-".to_string() } else { sid.clone() }, "m": m, "obs": w.obs()}));
+        }
+        // direct judgement of the consumer stream
+        let mut seen = std::collections::BTreeSet::new();
+        for item in &w.consumer {
+            if item["e"] == "Op" && !seen.insert(item["x"].as_str().unwrap_or("").to_string()) {
+                out.violation("C23", "consumer-sees-operation-twice", format!("run {run}: consumer stream {}", json!(w.consumer)), json!({"run": run, "seed": args.seed}));
+                break;
+            }
+        }
+        for (id, d) in &w.drv {
+            if let Some(p) = &d.panicked {
+                out.violation("C23", "live-session-panics", format!("session {id}: {p}"), json!({"run": run, "seed": args.seed}));
+            }
+        }
+        out.mark_distinct(format!("{run}"));
+        out.count_by("consumer_ops", w.consumer.iter().filter(|i| i["e"] == "Op").count() as u64);
+        if run < 2 {
+            out.sample(json!({"run": run, "cap": cap, "topics": topics, "final": w.obs()}));
+        }
+    }
+    let (events, runs) = trace.finish();
+    out.set_trace(events, runs);
+    out.write(args);
 }
